@@ -450,12 +450,53 @@ PreviousBucket(Bucket **current, Bucket *first)
     return result;
 }
 
+#ifdef BTREES_VERIF
+/* Verification hook, compiled in only with -DBTREES_VERIF=1: make the n-th
+ * allocation made through BTree_Malloc / BTree_Realloc fail, and count the
+ * allocations, so that every allocation site can be exercised.
+ */
+static long verif_alloc_countdown = 0;  /* 0: disarmed */
+static long verif_alloc_count = 0;
+
+static int
+verif_alloc_should_fail(void)
+{
+    verif_alloc_count++;
+    if (verif_alloc_countdown > 0 && --verif_alloc_countdown == 0)
+        return 1;
+    return 0;
+}
+
+/* _verif_fail_alloc(n): arm the countdown (n <= 0 disarms); returns the number
+ * of allocations made since the previous call.
+ */
+static PyObject *
+verif_fail_alloc(PyObject *ignored, PyObject *args)
+{
+    long n, count;
+
+    if (!PyArg_ParseTuple(args, "l", &n))
+        return NULL;
+    count = verif_alloc_count;
+    verif_alloc_count = 0;
+    verif_alloc_countdown = n > 0 ? n : 0;
+    return PyLong_FromLong(count);
+}
+#endif /* BTREES_VERIF */
+
 static void *
 BTree_Malloc(size_t sz)
 {
     void *r;
 
     ASSERT(sz > 0, "non-positive size malloc", NULL);
+#ifdef BTREES_VERIF
+    if (verif_alloc_should_fail())
+    {
+        PyErr_NoMemory();
+        return NULL;
+    }
+#endif
 
     r = malloc(sz);
     if (r)
@@ -471,6 +512,13 @@ BTree_Realloc(void *p, size_t sz)
     void *r;
 
     ASSERT(sz > 0, "non-positive size realloc", NULL);
+#ifdef BTREES_VERIF
+    if (verif_alloc_should_fail())
+    {
+        PyErr_NoMemory();
+        return NULL;
+    }
+#endif
 
     if (p)
         r = realloc(p, sz);
@@ -516,6 +564,11 @@ BTree_ShouldSuppressKeyError()
 #include "MergeTemplate.c"
 
 static struct PyMethodDef module_methods[] = {
+#ifdef BTREES_VERIF
+  {"_verif_fail_alloc", (PyCFunction) verif_fail_alloc,    METH_VARARGS,
+   "_verif_fail_alloc(n)\nverification hook: fail the n-th allocation"
+  },
+#endif
   {"difference", (PyCFunction) difference_m,    METH_VARARGS,
    "difference(o1, o2)\n"
    "compute the difference between o1 and o2"
